@@ -11,6 +11,7 @@ RULE = ("conventional documents with one injected malformed line of each kind (n
         "name, key and text without delimiter) at every kind of position, followed by arbitrary lines; alone and as a member of a "
         "layered tree; plus missing files and the message of every code -1..30; distinct by (file content, kind, position)")
 PATH = b"/etc/app/doc.conf"
+SHRINK = False
 
 MESSAGES = ["Success", "Unknown error", "Out of memory", "Configuration file not found", "Group not found", "Key not found",
             "Key is NULL or has empty value", "Error creating or writing to a file", "Parse error", "Missing bracket",
